@@ -27,6 +27,11 @@ CONFIGS = [
     ("GenA32", {"target_os": "linux", "target_arch": "arm", "unix": True}, 32,
      ["injector_core/common.rs", "injector_core/patch_arm.rs"],
      ["replace_function_with_other_function"]),
+    # the macOS memory path of common.rs (mach_vm_remap / mach_vm_protect / sys_icache_invalidate): translated on
+    # its own, `patch_function` being an external of GenA64M's `apply_branch_patch`
+    ("GenMac", {"target_os": "macos", "target_arch": "aarch64", "unix": True}, 64,
+     ["injector_core/common.rs"],
+     ["inject_asm_code", "patch_function", "drop"]),
     # the interface layer (architecture-independent; read in the x86-64 / Linux configuration)
     ("GenIf", {"target_os": "linux", "target_arch": "x86_64", "unix": True}, 64,
      ["interface/injector.rs", "interface/verifier.rs", "interface/func_ptr.rs", "injector_core/internal.rs"],
@@ -79,10 +84,15 @@ def translate_config(repo, ns, cfg, bits, files, roots):
     tr.prefix = ns
     tr.iface = ns == "GenIf"
     # macOS `patch_function` is a sequence of mach calls: an external for the translator
-    if cfg.get("target_os") == "macos":
+    if ns == "GenA64M":
         rs2lean.EXTERNALS["patch_function"] = (None,)
     else:
         rs2lean.EXTERNALS.pop("patch_function", None)
+    for k in ("pthread_jit_write_protect_np", "sys_dcache_flush", "sys_icache_invalidate", "mach_vm_protect", "mach_vm_remap"):
+        if cfg.get("target_os") == "macos":
+            rs2lean.EXTERNALS[k] = (None,)
+        else:
+            rs2lean.EXTERNALS.pop(k, None)
     for f in files:
         # a file whose first line is an inner cfg attribute for another architecture is still read:
         # the attribute is about the file, not about its items
